@@ -27,21 +27,23 @@ def r1(ctx):
     m = ctx.model
     reg = m.cls('Region')
     cp = method_or_fail(ctx, reg, 'copy')
-    # the stored value is a deepcopy of getattr(self, field)
-    deep = False
-    for st in stmts_of(cp.node):
-        if isinstance(st, ast.Assign) and isinstance(st.targets[0], ast.Subscript) and norm(st.targets[0].value) == 'changes':
-            v = st.value
-            deep = isinstance(v, ast.Call) and (call_name(v) or '').split('.')[-1] == 'deepcopy' and \
-                v.args and norm(v.args[0]).replace(' ', '') == 'getattr(self,field)'
-    if deep:
-        ctx.ok('Region.copy:deepcopy', 'missing fields are filled with copy.deepcopy(getattr(self, field))')
-    else:
-        ctx.bad('Region.copy', 'not-deep', 'fields not overridden are not deep-copied: the copy shares mutable state '
-                '(vertices arrays, meta, visual) with the original', cp.loc())
+    IMMUTABLE_KINDS = {'PositiveScalar': 'a Python/numpy float'}
+    IMMUTABLE_FIELDS = {'text': 'str', 'operator': 'function object'}
+
+    def copied_everywhere(t, orig):
+        """every path hands the constructor a deep copy of orig"""
+        if isinstance(t, Ite):
+            return copied_everywhere(t.a, orig) and copied_everywhere(t.b, orig)
+        return isinstance(t, App) and t.name == 'copy' and same(t.args[0], orig)
+
+    def unchanged_everywhere(t, orig):
+        if isinstance(t, Ite):
+            return unchanged_everywhere(t.a, orig) and unchanged_everywhere(t.b, orig)
+        return same(t, orig) or (isinstance(t, App) and t.name == 'copy' and same(t.args[0], orig))
+
     n = 0
     for ci in m.region_classes():
-        ev = evaluator(ctx)
+        ev = Evaluator(m, track_copies=True)
         s = ev.symbolic_instance(ci)
         params = m.params_of(ci)
         # copy with one change (first parameter) and without
@@ -57,29 +59,37 @@ def r1(ctx):
                 continue
             probs = []
             for p in list(params) + ['meta', 'visual']:
-                got = r.fields.get('_operator' if p == 'operator' else p)
+                fld = '_operator' if p == 'operator' else p
+                got = r.fields.get(fld)
                 if p == changed:
                     if not (same(got, marker) or (ci.name == 'PolygonPixelRegion' and 'NEW' in show(got, 300))):
                         probs.append(f'{p} change not applied')
                     continue
-                orig = ev.attr(s, '_operator' if p == 'operator' else p, None)
-                if p in ('meta', 'visual'):
-                    ok = isinstance(got, App) and got.name == 'copy' and same(got.args[0], orig)
-                else:
-                    ok = got is not None and term_equal(got, orig) == 'eq'
-                    if got is not None and contains_unknown(got) is not None and p not in ('vertices',):
-                        ok = False
-                    if p == 'vertices' and got is not None and ci.name == 'PolygonPixelRegion':
-                        # vertices + origin with origin = PixCoord(0, 0)
-                        ok = isinstance(got, Obj) and got.cls == 'PixCoord' and is_num(got.fields.get('x')) and \
-                            sp.simplify(got.fields['x'] - sym('self.vertices.x')) == 0
-                if not ok:
-                    probs.append(f'{p} of the copy is {show(got, 100)}, not the original\'s')
+                orig = ev.attr(s, fld, None)
+                if got is None:
+                    probs.append(f'{p} not supplied to the constructor')
+                    continue
+                if p == 'vertices' and ci.name == 'PolygonPixelRegion':
+                    ok = 'copy(self.vertices)' in show(got, 400) and show(got, 400).count('self.vertices') == \
+                        show(got, 400).count('copy(self.vertices')
+                    if not ok:
+                        probs.append('vertices of the copy are not built from a deep copy of self.vertices')
+                    continue
+                immutable = p in IMMUTABLE_FIELDS or m.descriptor_kind(ci, p) in IMMUTABLE_KINDS
+                if immutable:
+                    if not unchanged_everywhere(got, orig):
+                        probs.append(f'{p} of the copy is {show(got, 100)}, not the original value')
+                elif not copied_everywhere(got, orig):
+                    if unchanged_everywhere(got, orig):
+                        probs.append(f'{p} (a mutable {m.descriptor_kind(ci, p) or "object"}) reaches the copy without a deep '
+                                     f'copy on some path ({show(got, 140)}): in-place changes of the copy show in the original')
+                    else:
+                        probs.append(f'{p} of the copy is {show(got, 100)}, not a deep copy of the original')
             n += 1
             if probs:
                 ctx.bad(construct, 'fields', '; '.join(probs), cp.loc())
             else:
-                ctx.ok(construct, 'same class; every field (deep-)copied; only named fields differ')
+                ctx.ok(construct, 'same class; every mutable field deep-copied on every path; only named fields differ')
     ctx.need(n >= 40, 'copy instances', f'only {n}')
 
 
